@@ -374,9 +374,8 @@ class World:
             if target[1] > 0:
                 events.append(dict(op='chunk', t=t))
         final = self.files()
-        # intermediate file observations are not available: each intermediate event carries the files the
-        # specification implies only if they can be derived from the final observation; we log the final
-        # observation on the last event and mark the others as unobserved (files = None -> filled below)
+        # write_env is one call: the files are observed once, after it; the observation is attached to the last
+        # event of the segment, the events before it are marked unobserved (files = None -> seen = FALSE)
         for ev in events:
             ev['files'] = None
         if crashed:
@@ -481,10 +480,8 @@ class World:
 # TLC as the oracle for logs (code -> spec)
 
 def _fill_files(log, ntasks):
-    """Intermediate events of one write_env call have no observation of their own: give them the
-    files the *next observed* event implies is not possible in general, so PersistTrace is told to
-    skip the file comparison there (files = the string 'unobserved' is not expressible in one type):
-    we replicate the specification-independent rule `unobserved -> compare nothing` by a flag."""
+    """Events inside one write_env call carry no observation of the files (files = None): they get the flag
+    seen = FALSE (PersistTrace compares the files only where seen) and a placeholder of the right type."""
     out = []
     for ev in log:
         e = dict(ev)
